@@ -403,6 +403,9 @@ struct TimeCase {
     /// other standard `go` parameters around the limits (0 = none): the engine does not act on
     /// them, the limits must be honoured all the same
     extra: u8,
+    /// a position with nine queens a side, where one iteration costs far more than the budget
+    /// (the budget must end the search in the middle of its first iterations)
+    heavy: bool,
 }
 
 impl TimeCase {
@@ -440,7 +443,7 @@ impl TimeCase {
         }
     }
     fn json(&self) -> Value {
-        json!({"kind":"time","white_to_move":self.white_to_move,"cmd":self.cmd(),"wtime":self.w,"btime":self.b,"winc":self.wi,"binc":self.bi,"movetime":self.movetime,"delay_ms":self.delay_ms,"both":self.both,"with_depth":self.with_depth,"extra":self.extra})
+        json!({"kind":"time","white_to_move":self.white_to_move,"cmd":self.cmd(),"wtime":self.w,"btime":self.b,"winc":self.wi,"binc":self.bi,"movetime":self.movetime,"delay_ms":self.delay_ms,"both":self.both,"with_depth":self.with_depth,"extra":self.extra,"heavy":self.heavy})
     }
     fn available(&self) -> u64 {
         if self.both > 0 {
@@ -488,13 +491,13 @@ fn gen_time_case(rng: &mut Rng) -> TimeCase {
         }
     };
     if rng.chance(1, 6) {
-        return TimeCase { extra: 0, with_depth: false, both: 0, delay_ms: 0, white_to_move: rng.chance(1, 2), w: 0, b: 0, wi: 0, bi: 0, movetime: Some(match rng.below(4) { 0 => rng.range(0, 6), 1 => rng.range(0, 500), 2 => rng.range(500, 100_000), _ => rng.range(0, 60) }) };
+        return TimeCase { heavy: false, extra: 0, with_depth: false, both: 0, delay_ms: 0, white_to_move: rng.chance(1, 2), w: 0, b: 0, wi: 0, bi: 0, movetime: Some(match rng.below(4) { 0 => rng.range(0, 6), 1 => rng.range(0, 500), 2 => rng.range(500, 100_000), _ => rng.range(0, 60) }) };
     }
     let w = clock(rng);
     let b = clock(rng);
     let wi = inc(rng, w);
     let bi = inc(rng, b);
-    TimeCase { extra: 0, with_depth: false, both: 0, delay_ms: 0, white_to_move: rng.chance(1, 2), w, b, wi, bi, movetime: None }
+    TimeCase { heavy: false, extra: 0, with_depth: false, both: 0, delay_ms: 0, white_to_move: rng.chance(1, 2), w, b, wi, bi, movetime: None }
 }
 
 fn c13_one(out: &mut Out, sess: &mut Option<Session>, checked: bool, tc: &TimeCase, wall_limit_for_wait: u64) {
@@ -521,6 +524,12 @@ fn c13_one(out: &mut Out, sess: &mut Option<Session>, checked: bool, tc: &TimeCa
     out.add("time_cases", 1);
     if checked {
         out.add("time_cases_on_checked_build", 1);
+    }
+    let heavy_w = "q1q1kq1q/1q1q2q1/q7/8/8/Q7/1Q1Q2Q1/Q1Q1KQ1Q w - - 0 1";
+    let heavy_b = "q1q1kq1q/1q1q2q1/q7/8/8/Q7/1Q1Q2Q1/Q1Q1KQ1Q b - - 0 1";
+    let (fen_w, fen_b) = if tc.heavy { (heavy_w, heavy_b) } else { (fen_w, fen_b) };
+    if tc.heavy {
+        out.add("cases_on_a_position_whose_first_iterations_outlast_the_budget", 1);
     }
     s.send(&format!("position fen {}", if tc.white_to_move { fen_w } else { fen_b }));
     let sent = Instant::now();
@@ -656,12 +665,12 @@ pub fn worker_c13(shard: usize, _nshards: usize, seed: u64, tier: &str, out: &mu
     let fixed: Vec<TimeCase> = {
         let mut v = vec![];
         for (w, wi) in [(1000u64, 0u64), (0, 0), (7499, 0), (7500, 0), (7501, 0), (100, 5000), (149, 0), (150, 0), (151, 0), (8000, 0), (60000, 1000), (10, 100000), (7400, 1), (1, 149), (1, 150), (1, 151)] {
-            v.push(TimeCase { extra: 0, with_depth: false, both: 0, delay_ms: 0, white_to_move: true, w, b: 60000, wi, bi: 0, movetime: None });
-            v.push(TimeCase { extra: 0, with_depth: false, both: 0, delay_ms: 0, white_to_move: false, w: 60000, b: w, wi: 0, bi: wi, movetime: None });
+            v.push(TimeCase { heavy: false, extra: 0, with_depth: false, both: 0, delay_ms: 0, white_to_move: true, w, b: 60000, wi, bi: 0, movetime: None });
+            v.push(TimeCase { heavy: false, extra: 0, with_depth: false, both: 0, delay_ms: 0, white_to_move: false, w: 60000, b: w, wi: 0, bi: wi, movetime: None });
         }
         for m in [0u64, 1, 2, 3, 4, 5, 6, 10, 100, 499] {
-            v.push(TimeCase { extra: 0, with_depth: false, both: 0, delay_ms: 0, white_to_move: m % 2 == 0, w: 0, b: 0, wi: 0, bi: 0, movetime: Some(m) });
-            v.push(TimeCase { extra: 0, with_depth: false, both: 0, delay_ms: 60, white_to_move: m % 2 == 1, w: 0, b: 0, wi: 0, bi: 0, movetime: Some(m) });
+            v.push(TimeCase { heavy: false, extra: 0, with_depth: false, both: 0, delay_ms: 0, white_to_move: m % 2 == 0, w: 0, b: 0, wi: 0, bi: 0, movetime: Some(m) });
+            v.push(TimeCase { heavy: false, extra: 0, with_depth: false, both: 0, delay_ms: 60, white_to_move: m % 2 == 1, w: 0, b: 0, wi: 0, bi: 0, movetime: Some(m) });
         }
         v
     };
@@ -724,6 +733,18 @@ pub fn worker_c13(shard: usize, _nshards: usize, seed: u64, tier: &str, out: &mu
             tc.extra = 1 + rng.below(9) as u8;
             out.add("cases_with_other_go_parameters", 1);
         }
+        if i % 10 == 7 && !tc.with_depth {
+            // small budgets on a position where one iteration takes seconds
+            tc.heavy = true;
+            if tc.movetime.is_none() {
+                tc.w = rng.range(0, 9000);
+                tc.b = rng.range(0, 9000);
+                tc.wi = rng.range(0, 120);
+                tc.bi = rng.range(0, 120);
+            } else {
+                tc.movetime = Some(rng.range(0, 200));
+            }
+        }
         out.begin(&tc.json());
         let checked = i % 5 == 4;
         if checked {
@@ -754,6 +775,7 @@ pub fn run_c13(tier: &str, seed: u64) -> i32 {
         let mut o2 = Out::open(res.to_str().unwrap());
         let c = &v["case"];
         let tc = TimeCase {
+            heavy: c["heavy"].as_bool().unwrap_or(false),
             extra: c["extra"].as_u64().unwrap_or(0) as u8,
             with_depth: c["with_depth"].as_bool().unwrap_or(false),
             both: c["both"].as_u64().unwrap_or(0) as u8,
@@ -775,7 +797,7 @@ pub fn run_c13(tier: &str, seed: u64) -> i32 {
     *agg.ctr.entry("late_or_missing_announcements_reproduced".into()).or_insert(0) += reproduced;
     chk.evaluations = agg.c("time_cases");
     chk.distinct_nontrivial = agg.c("cases_below_latency_allowance") + agg.c("cases_increment_above_clock") + agg.c("movetime_cases");
-    chk.rule = "case = one `go wtime W btime B winc I binc J` or `go movetime M` sent to the real binary for a white-to-move or black-to-move position; observed: the `info time` line (decides the arithmetic verdict), stderr/exit status, and for budgets <= 300 ms the wall time to `bestmove` (a late announcement counts only when reproduced alone). W,B: dense in [0,10^4], boundary values 0/1/149/150/151/7499/7500/7501, log-uniform to 10^7; I,J in {0,1,10,100,149..151,1000,10^4, above the clock, random}; M in [0,10^5]. Every fourth case carries another standard `go` parameter around the limits (ponder, searchmoves with one or two moves, movestogo, nodes, mate; before or after the limits) which must not change what is allotted. Every fifth case runs on the debug-assertions build. non-trivial = the 2% share plus increment is below the 150 ms allowance, or the increment exceeds the clock, or a movetime case (counted).".into();
+    chk.rule = "case = one `go wtime W btime B winc I binc J` or `go movetime M` sent to the real binary for a white-to-move or black-to-move position; observed: the `info time` line (decides the arithmetic verdict), stderr/exit status, and for budgets <= 300 ms the wall time to `bestmove` (a late announcement counts only when reproduced alone). W,B: dense in [0,10^4], boundary values 0/1/149/150/151/7499/7500/7501, log-uniform to 10^7; I,J in {0,1,10,100,149..151,1000,10^4, above the clock, random}; M in [0,10^5]. Every tenth case is played on a position with nine queens a side, where finishing even the second iteration takes ~20 s (the budget has to end the search inside its first iterations; the unchanged engine overruns by ~0.3 s there because the capture extension does not poll the flag - the tolerance for a late announcement is 2 s and it must reproduce alone). Every fourth case carries another standard `go` parameter around the limits (ponder, searchmoves with one or two moves, movestogo, nodes, mate; before or after the limits) which must not change what is allotted. Every fifth case runs on the debug-assertions build. non-trivial = the 2% share plus increment is below the 150 ms allowance, or the increment exceeds the clock, or a movetime case (counted).".into();
     chk.assumptions = vec![
         "`go` with clocks but without increments runs untimed (no budget is computed): outside the property's quantifier, not judged".into(),
         "wall-clock is only a tiebreak; the printed budget is the deciding observation".into(),
@@ -790,11 +812,13 @@ pub fn run_c13(tier: &str, seed: u64) -> i32 {
     chk.need("cases with a move time and clocks together", agg.c("cases_with_move_time_and_clocks"), 50);
     chk.need("cases with a depth limit and a time budget", agg.c("cases_with_a_depth_limit_and_a_time_budget"), 50);
     chk.need("cases with other go parameters around the limits", agg.c("cases_with_other_go_parameters"), 200);
+    chk.need("cases on a position whose first iterations outlast the budget", agg.c("cases_on_a_position_whose_first_iterations_outlast_the_budget"), 100);
     finalize(chk, &agg)
 }
 
 pub fn replay_c13(case: &Value, out: &mut Out) {
     let tc = TimeCase {
+        heavy: case["heavy"].as_bool().unwrap_or(false),
         extra: case["extra"].as_u64().unwrap_or(0) as u8,
         with_depth: case["with_depth"].as_bool().unwrap_or(false),
         both: case["both"].as_u64().unwrap_or(0) as u8,
